@@ -1550,3 +1550,16 @@ mod tests {
         }
     }
 }
+
+#[cfg(eigerco_lumina_verif)]
+pub(crate) mod verif_hooks {
+    use super::*;
+
+    pub(crate) fn calculate_range_to_fetch(
+        head: u64,
+        synced: &[BlockRange],
+        limit: u64,
+    ) -> BlockRange {
+        super::calculate_range_to_fetch(head, synced, limit)
+    }
+}
